@@ -26,12 +26,12 @@ def check(ctx):
             H.append('void %s(void) { static const uint32_t mat[] = %s; cls_case(mat, %d, %d); }' % (fn, material.cinit(mat), len(mat), side))
             names.append((fn, {'material': material.name(mat), 'side_to_move': 'wb'[side], 'squares/rights/ep/move': 'symbolic'}, mat))
     hp = ctx.path('h_c15.c'); open(hp, 'w').write('\n'.join(H) + '\n')
-    gb = ctx.gotocc('c15', [c, hp]); gbw = ctx.gotocc('c15w', [c, hp], ['WITNESS'])
+    gb = ctx.gotocc('c15', [c, hp], ['S_USE_BITBOARD_ORACLE']); gbw = ctx.gotocc('c15w', [c, hp], ['WITNESS', 'S_USE_BITBOARD_ORACLE'])
     qs, ws = [], []
     to = 600 if ctx.tier == 'quick' else 2700
     for fn, smp, mat in names:
         if ctx.only and not re.search(ctx.only, fn): continue
-        us = mc.unwindset(len(mat)); us.update({'cls_case.0': 65})
+        us = mc.unwindset(len(mat)); us.update({'cls_case.0': 65, 's_attacked_bb.0': 65, 'sb_fill.0': 8})
         qs.append(Query(fn, gb, fn, us, timeout=to, sample=smp, meta={'mat': mat}))
         ws.append(Query('w_' + fn, gbw, fn, us, timeout=to, sample=smp, meta={'of': fn}, expect='witness'))
     res = ctx.run_queries(qs + ws, label='c15')
